@@ -266,6 +266,22 @@ def aligned_data_patch(case, rng):
     return case
 
 
+def added_function(case, rng):
+    """register_insert_function in the same context: plain bodies, bodies that bring their own CFI procedure, bodies
+    with a cold part in another executable section (its own procedure, an alignment request at its end)"""
+    k = rng.randrange(1 << 16)
+    body = rng.choice([
+        "nop\nret",
+        ".cfi_startproc\nnop\nret\n.cfi_endproc",
+        ".cfi_startproc\nnop\nret\n.cfi_endproc\n.section .text.cold,\"ax\",@progbits\n.cfi_startproc\ncold_%d:\nnop\nret\n.cfi_endproc" % k,
+        "nop\njne cold_%d\nret\n.section .text.cold,\"ax\",@progbits\ncold_%d:\nnop\nret" % (k, k),
+        "nop\nret\n.section .text.cold,\"ax\",@progbits\ncold_%d:\nnop\nret\n.balign 16" % k,
+        ".cfi_startproc\nnop\nret\n.cfi_endproc\n.section .text.cold,\"ax\",@progbits\n.cfi_startproc\ncold_%d:\nnop\njmp cold_%d\n.cfi_endproc" % (k, k),
+    ])
+    case["insert_functions"] = [{"name": "added_%d" % k, "asm": body}]
+    return case
+
+
 def bss_case(rng):
     """a data section whose interval is only partly initialized: blocks in the uninitialized tail, a gap no block
     covers, alignment on the block behind the gap - and a request that changes the size of the initialized part"""
@@ -360,6 +376,8 @@ def run(ctx):
         case = special_blocks(add_encodings(emodify.gen_case(ctx.rng), ctx.rng), ctx.rng)
         if ctx.rng.random() < 0.15:
             case = aligned_data_patch(case, ctx.rng)
+        if ctx.rng.random() < 0.08:
+            case = added_function(case, ctx.rng)
         check_case(ctx, case, pending)
         if len(pending) >= 300:
             flush(ctx, pending)
